@@ -62,6 +62,28 @@ def reference_distribution(c):
     return closed, np.array([dist[b] for b in itertools.product((0, 1), repeat=n)]).reshape(1, -1)
 
 
+def known_shape(c):
+    """Structural features of a source circuit that put it in one of the recorded to_tk defect
+    families (see known_findings.json); None otherwise.  Computed from the circuit only."""
+    from discopy.quantum import gates, circuit
+    closed = c.init_and_discard()
+    classical_seen, n_bits_made = False, 0
+    for left, box, right in closed.layers:
+        nb_left, nb_right = left.count(circuit.bit), right.count(circuit.bit)
+        if isinstance(box, circuit.Measure) and box.override_bits and classical_seen:
+            return "classical-gate-before-overriding-measure"
+        if isinstance(box, gates.Bits) and not box.is_dagger:
+            if classical_seen:
+                return "bits-prepared-after-classical-gate"
+            if nb_right >= 1:
+                return "bits-prepared-left-of-an-existing-bit"
+        if isinstance(box, gates.ClassicalGate) and not isinstance(box, gates.Bits):
+            classical_seen = True
+        if isinstance(box, gates.Bits) and box.is_dagger:
+            classical_seen = True
+    return None
+
+
 def check_export(params):
     from discopy.quantum.circuit import Circuit
     recipe = norm(params["recipe"])
@@ -69,7 +91,10 @@ def check_export(params):
     out = []
 
     def bad(kind, msg):
-        out.append((_sig(kind, params), "%s: %s" % (c, msg)))
+        shape = known_shape(c) if kind in ("export-meaning", "to_tk-raises", "get_counts-backend",
+                                           "eval-backend", "backend-raises", "output-bits", "bit-count") else None
+        sig = "C13:to_tk:%s" % shape if shape else _sig(kind, params)
+        out.append((sig, "%s: %s" % (c, msg)))
     try:
         t = c.to_tk()
     except NotImplementedError:
@@ -364,9 +389,17 @@ def run(ctx):
     if ctx.quick:
         uni = [r for r in uni if len(r[2]) <= 1] + [r for r in uni if len(r[2]) == 2][::3]
         fam = fam[::20]
+    # smallest witnesses of the recorded to_tk defect families (always explored)
+    E = lambda x: ("e", x)  # noqa
+    noisy = "ClassicalGate('noisy', 1, 1, [0.9, 0.1, 0.2, 0.8])"
+    witnesses = [
+        ("circuit", ("qubit", "bit"), ((E(noisy), 1), (E("Measure(override_bits=True)"), 0))),
+        ("circuit", ("qubit", "qubit"), ((E("H"), 0), (E("Measure(2)"), 0), (E("Bits(0)"), 0))),
+        ("circuit", ("bit",), ((E(noisy), 0), (E("Copy()"), 0), (E("Bits(0)"), 2))),
+    ]
     tomo = tomography_family(ctx.quick)
     ctx.note("tomography_family", "%d closed circuits (gate sequences x measurement bases)" % len(tomo))
-    items = [("export", dict(recipe=r)) for r in uni + fam + tomo]
+    items = [("export", dict(recipe=r)) for r in witnesses + uni + fam + tomo]
     # batches: ordered pairs / triples of small circuits with different scalars and post-selections
     k = build.kit("circuit")
     small = [("circuit", (), ((("e", e1), 0), (("e", e2), o))) for e1, e2, o in (
